@@ -27,7 +27,7 @@ BUDGET = {
     'thorough': {'families': 40000, 'wall_cap': 5400, 'shrink_s': 40},
 }
 
-KINDS = ['value', 'filter', 'filter_sub', 'key', 'index', 'timeout', 'notimpl', 'stopiter', 'base']
+KINDS = ['value', 'filter', 'filter_sub', 'filter_bare', 'key', 'index', 'timeout', 'notimpl', 'stopiter', 'base']
 
 
 def gen_systematic(rng, two=False):
